@@ -321,8 +321,9 @@ def run_cli(case):
     root = case["rel"][case["roots"][0]]
     args = [C.BINDGEN, "--formatter=none", root, "-o", case["out"], "--depfile", "cli.d", "--"] + case["clang_args"]
     env = dict(os.environ)
-    for k in ("TARGET", "BINDGEN_EXTRA_CLANG_ARGS"):
+    for k in ("TARGET", "BINDGEN_EXTRA_CLANG_ARGS", "BINDGEN_VERIF_DETAIL"):
         env.pop(k, None)
+    env["BINDGEN_VERIF_LOG"] = os.path.join(case["dir"], "cli.ndjson")      # hook log (gen_begin, dep, ...)
     try:
         p = subprocess.run(args, cwd=case["dir"], stdout=subprocess.PIPE, stderr=subprocess.PIPE, text=True,
                            timeout=120, env=env)
@@ -348,7 +349,7 @@ def run_clang(case):
 
 
 def lib_job(case):
-    job = {"id": case["id"], "cwd": case["dir"], "cargo": True,
+    job = {"id": case["id"], "cwd": case["dir"], "cargo": True, "log": os.path.join(case["dir"], "lib.ndjson"),
            "env": {"TARGET": None, "BINDGEN_EXTRA_CLANG_ARGS": None}}
     if len(case["roots"]) == 1 and not case["virtual_root"]:
         job["args"] = ["bindgen", "--formatter=none", case["rel"][case["roots"][0]], "-o", "lib_" + case["out"], "--depfile", "lib.d",
@@ -538,6 +539,51 @@ def check_case(case, cli, lib, res, stats):
         if other:
             res.drift.append("unexpected stdout line from CargoCallbacks: %r (%s)" % (other[0], case["id"]))
     return viol
+
+
+def dep_record(case, ch, logpath, depfile_text):
+    """One Trace_Deps record from the hook log of a run (files are numbered 1..n there; 0 = unknown path)."""
+    if not os.path.exists(logpath):
+        return None
+    byreal = {norm(case, r): f + 1 for f, r in case["rel"].items()}
+    inputs, deps, began = [], [], False
+    for line in open(logpath, errors="replace"):
+        if line.startswith('{"ev":"gen_begin"'):
+            began = True
+            inputs = [byreal.get(norm(case, h), 0) for h in json.loads(line).get("headers", [])]
+        elif line.startswith('{"ev":"dep"'):
+            deps.append(byreal.get(norm(case, json.loads(line)["file"]), 0))
+    if not began:
+        return None
+    dag = case["dag"]
+    n = len(case["rel"])
+    dirs_used = set(dag["L"]["dir"].values())
+    reported = [byreal.get(norm(case, p), 0) for p in read_depfile(depfile_text)[1]] if depfile_text else []
+    roots = case["roots"]
+    return {"case": case["id"], "ch": ch, "n": n,
+            "dir": [dag["L"]["dir"][str(f)] for f in range(n)], "name": [dag["L"]["name"][str(f)] for f in range(n)],
+            "path": ["inc", "sys"] if ("inc" in dirs_used or "sys" in dirs_used) else [],
+            "content": [{"dirs": dag["content"][str(f)]["dirs"]} for f in range(n)],
+            "starts": [f + 1 for f in roots + case["pre"]],
+            "optional": [roots[-1] + 1] if case["virtual_root"] else [],
+            "inputs": inputs, "deps": deps, "reported": reported,
+            "model_deps": [dag["lines"][str(f)] - roots.count(f) for f in range(n)]}
+
+
+def validate_deps(records, name):
+    """Trace_Deps.tla over the hook-log records -> (violations, drift, count, tlc result)."""
+    tp = os.path.join(C.workdir("c17-trace-deps-" + name), "deps.ndjson")
+    with open(tp, "w") as f:
+        for x in records:
+            f.write(json.dumps(x) + "\n")
+    r = C.tlc(os.path.join(FRONT, "Trace_Deps.tla"), cfg="Trace_Deps.cfg", env={"TRACE": tp}, workers=1,
+              dfs=True, timeout=1500, name="c17-tvd-" + name)
+    if not C.tlc_ok(r):
+        raise C.ToolError("Trace_Deps did not complete: %s" % r["out"][-1500:])
+    v = C.tlc_prints(r["out"], "VIOL")
+    d = C.tlc_prints(r["out"], "DRIFT")
+    c = C.tlc_prints(r["out"], "COUNT")
+    return (v[0] if v else []), (d[0] if d else []), (c[0]["n"] if c else 0), r
 
 
 def validate_lines(lines, name):
@@ -741,6 +787,48 @@ def run(res, tier):
             first_ok = (c, cli)
     nenv = check_env(res, out, eexpect)
 
+    # ---- T: hook logs (gen_begin.headers + dep events) against the spec's read set, by TLC -----------
+    recs = []
+    bycase = {c["id"]: c for c in cases}
+    for c, cli in zip(cases, clis):
+        if cli is not None and cli["rc"] == 0:
+            rr = dep_record(c, "dep-events-cli", os.path.join(c["dir"], "cli.ndjson"), cli["depfile"])
+            if rr is None:
+                raise C.ToolError("no hook log from the CLI run of " + c["id"])
+            recs.append(rr)
+        lo = out.get(c["id"])
+        if lo is not None and lo.get("outcome") == "ok":
+            dp = os.path.join(c["dir"], "lib.d")
+            rr = dep_record(c, "dep-events-lib", os.path.join(c["dir"], "lib.ndjson"), open(dp).read() if os.path.exists(dp) else "")
+            if rr is None:
+                raise C.ToolError("no hook log from the library run of " + c["id"])
+            recs.append(rr)
+    dv, dd, ndep, dtr = validate_deps(recs, "all")
+    for v in dv:
+        c = bycase[v["case"]]
+        base_detail = {"case": v["case"], "dir": c["dir"], "clang_args": c["clang_args"],
+                       "spec_read": [c["rel"][x] for x in sorted(c["dag"]["read"])],
+                       "header_texts": {c["rel"][f]: c["text"][f] for f in sorted(c["rel"])}}
+        for f in v["missing"]:
+            res.violation("%s:unreported:%s" % (v["ch"], role(c, f - 1, False)), dict(base_detail, file=c["rel"][f - 1]))
+        for f in v["extra"]:
+            res.violation("%s:not-read:%s" % (v["ch"], role(c, f - 1 if f else None, True)),
+                          dict(base_detail, file=c["rel"].get(f - 1, "<a path outside the DAG>")))
+        if v["disagree"] and not v["missing"] and not v["extra"]:
+            res.violation("%s:differs-from-depfile" % v["ch"], dict(base_detail, files=[c["rel"].get(f - 1, "?") for f in v["disagree"]]))
+    for x in dd[:5]:
+        res.drift.append("%s %s: number of dep events per file differs from the model's directive count (files %s)" %
+                         (x["ch"], x["case"], x["files"]))
+    res.add(states=dtr["distinct"], transitions=dtr["generated"], hook_log_runs_validated_by_tlc=ndep)
+    clean = next(r0 for r0 in recs if set(r0["deps"]) - set(r0["inputs"]) - {0}
+                 and not any(v["case"] == r0["case"] for v in dv))
+    gone = sorted(set(clean["deps"]) - set(clean["inputs"]) - {0})[0]
+    t1 = dict(clean, deps=[x for x in clean["deps"] if x != gone])
+    t2 = dict(clean, deps=clean["deps"] + [0])
+    tv, _, _, _ = validate_deps([t1, t2], "tamper")
+    if len(tv) != 2:
+        raise C.ToolError("tampered hook logs: %d of 2 rejected by Trace_Deps" % len(tv))
+
     # ---- T: TLC checks every observed dep-file line against the spec's writer and reader -----------
     bad, nlines, tr = validate_lines(stats["lines"], "all")
     for b in bad:
@@ -770,7 +858,7 @@ def run(res, tier):
     res.add(tampered_observations_flagged=len(tests))
 
     del stats["lines"]
-    res.add(traces_validated_against_impl=stats["depfiles"] + stats["callback_runs"] + nenv,
+    res.add(traces_validated_against_impl=stats["depfiles"] + stats["callback_runs"] + nenv + ndep,
             depfiles_parsed_back=stats["depfiles"], callback_runs=stats["callback_runs"], env_lookup_runs=nenv,
             clang_cross_checks=len(cases), special_name_cases=sum(1 for c in cases if c["special"]),
             header_contents_cases=sum(1 for c in cases if c["virtual_root"]),
